@@ -103,6 +103,41 @@ pub fn main(args: &[String]) {
                         }
                     }
                 }
+                // ENVIRONMENT: a destination that fails ONCE (disk full, then space freed) while the application keeps using
+                // the writer: whatever reaches the destination afterwards must still hold no plaintext
+                if par.stack.enc {
+                    for fail_at in [1usize, 2, 3, 5, 8, 13, 21, 34] {
+                        let mut sched = vec![1i64 << 30; fail_at];
+                        sched.push(-1);
+                        sched.extend(std::iter::repeat(1i64 << 30).take(100_000));
+                        let sink = SharedSink::with_schedule(sched);
+                        let got = guarded(|| {
+                            if let Ok(mut d) = archive::Driver::new(&par, sink.clone()) {
+                                for lab in job["labels"].as_array().unwrap() {
+                                    let _ = d.call(lab);       // errors are returned to the caller, who goes on
+                                    d.account(lab);
+                                }
+                            }
+                        });
+                        let _ = got;                            // a panic here is C08/C09's matter, not this check's
+                        let all = sink.snapshot();
+                        let body = &all[b.header_len.min(all.len())..];
+                        scanned += body.len();
+                        for (label, (_, content)) in &b.files {
+                            if !par.stack.comp || par.entropy == crate::cells::Entropy::High {
+                                if content.chunks(8).filter(|w| w.len() == 8).take(64).any(|w| find(body, w)) {
+                                    viol.push(json!({"kind": "content-in-clear-after-destination-error", "par": job["par"], "name": label, "failed_write": fail_at}));
+                                    break;
+                                }
+                            }
+                            let name = archive::real_name(label);
+                            if name.len() >= 3 && find(body, name.as_bytes()) {
+                                viol.push(json!({"kind": "name-in-clear-after-destination-error", "par": job["par"], "name": label, "failed_write": fail_at}));
+                                break;
+                            }
+                        }
+                    }
+                }
                 // header: only public material
                 let h = refcodec::parse_header(&b.bytes).expect("header");
                 if h.len != b.header_len {
